@@ -273,6 +273,10 @@ class BaseObserver(EventDispatcher):
 
     def start(self) -> None:
         with self._lock:
+            if self.ident is not None:
+                # A second start() must not touch the running emitters.
+                msg = "threads can only be started once"
+                raise RuntimeError(msg)
             # An observer that was stopped already starts no emitter: nothing would stop it again.
             if self.should_keep_running():
                 for emitter in self._emitters.copy():
